@@ -306,7 +306,7 @@ theorem pyEnvR_reid (ι : Nat → Nat) (env env' : Env PyCtx ω)
   ignore := hi
   fuel := hf
   guard := by
-    intro st st' t ev h1 _ _
+    intro st st' t ev h1 _ _ _
     rw [hE, hE']
     show pyGuard st' (t.relabel id ι) ev = pyGuard st t ev
     unfold pyGuard
@@ -319,7 +319,7 @@ theorem pyEnvR_reid (ι : Nat → Nat) (env env' : Env PyCtx ω)
       simp only [viewEnv, h1.time, h1.config, List.map_id, h1.entryTime, h1.idleTime, renKeys_id]
       exact pyEval_vars _ _ _ _ h1.ctx.1
   cond := by
-    intro st st' kind obj code ev h1 _ hobj
+    intro st st' kind obj code ev h1 _ hobj _
     rw [hE, hE']
     show pyCond st' kind (obj.ren id ι) code ev = pyCond st kind obj code ev
     have hown : ownerOf (obj.ren id ι) = ownerOf obj := by cases obj <;> rfl
@@ -334,7 +334,7 @@ theorem pyEnvR_reid (ι : Nat → Nat) (env env' : Env PyCtx ω)
     | post => exact pyEval_vars _ _ _ _ h1.ctx.1
     | inv => exact pyEval_vars _ _ _ _ h1.ctx.1
   exec := by
-    intro st st' k ev h1 _ _
+    intro st st' k ev h1 _ _ _
     rw [hE, hE']
     show (pyExec st' (k.ren id ι) ev).2 = (pyExec st k ev).2 ∧ PyR ι env.chart (pyExec st k ev).1 (pyExec st' (k.ren id ι) ev).1
     obtain ⟨hv, hu, ho⟩ := h1.ctx
